@@ -725,29 +725,12 @@ class HistoryGen:
         """a constraint that makes the set unsatisfiable in a way only solving can tell, added WITHOUT asking; then a
         branch and/or simplify / an optimisation of an unrelated variable before anybody asks for satisfiability"""
         r = self.r
-        if h.ref.kind != "enum" or not h.ref.M:
+        c_ = self.late_unsat_constraint(h)
+        if c_ is None:
             return
+        c_, a = c_
         eg = self.egf(h)
-        if not eg.bvs or eg.simple:
-            return
-        a = r.choice(eg.bvs)
-        w = self.vars[a]
-        x = ["var", a]
-        cands = []
-        if eg.ok("mul") and w >= 2:
-            # squares are 0 or 1 mod 4: x*x == 2 or 3 (mod 2^w) has no solution
-            cands.append(["eq", ["mul", x, x], ["const", r.choice([2, 3]), w]])
-        if eg.ok("and") and eg.ok("add"):
-            cands.append(["eq", ["and", ["add", x, x], ["const", 1, w]], ["const", 1, w]])  # 2x is even
-        if eg.ok("xor") and eg.ok("add"):
-            cands.append(["ult", ["add", ["xor", x, ["const", 1, w]], x], ["const", 1, w]])  # (x^1)+x is odd, never 0
-        V = sorted(h.ref.values(x))
-        miss = [v for v in range(1 << w) if v not in V]
-        if miss and len(V) > 1:
-            cands.append(["eq", ["add", x, ["const", 1, w]], ["const", (r.choice(miss) + 1) % (1 << w), w]])
-        if not cands:
-            return
-        self.emit({"op": "add", "h": hi, "cs": [r.choice(cands)]})
+        self.emit({"op": "add", "h": hi, "cs": [c_]})
         others = [n for n in eg.bvs if n != a]
         cur = hi
         if r.chance(70) and len(live) < self.max_handles + 1:
@@ -770,6 +753,33 @@ class HistoryGen:
                 self.emit({"op": "sat", "h": cur, "extra": []})
             if r.chance(40):
                 cur = hi if cur != hi else cur
+
+    def late_unsat_constraint(self, h):
+        """-> (constraint, variable) that makes h unsatisfiable in a way only solving can tell, or None"""
+        r = self.r
+        if h.ref.kind != "enum" or not h.ref.M:
+            return None
+        eg = self.egf(h)
+        if not eg.bvs or eg.simple:
+            return None
+        a = r.choice(eg.bvs)
+        w = self.vars[a]
+        x = ["var", a]
+        cands = []
+        if eg.ok("mul") and w >= 2:
+            # squares are 0 or 1 mod 4: x*x == 2 or 3 (mod 2^w) has no solution
+            cands.append(["eq", ["mul", x, x], ["const", r.choice([2, 3]), w]])
+        if eg.ok("and") and eg.ok("add"):
+            cands.append(["eq", ["and", ["add", x, x], ["const", 1, w]], ["const", 1, w]])  # 2x is even
+        if eg.ok("xor") and eg.ok("add"):
+            cands.append(["ult", ["add", ["xor", x, ["const", 1, w]], x], ["const", 1, w]])  # (x^1)+x is odd, never 0
+        V = sorted(h.ref.values(x))
+        miss = [v for v in range(1 << w) if v not in V]
+        if miss and len(V) > 1:
+            cands.append(["eq", ["add", x, ["const", 1, w]], ["const", (r.choice(miss) + 1) % (1 << w), w]])
+        if not cands:
+            return None
+        return r.choice(cands), a
 
     def macro_merge3(self, hi, h, live):
         """C15: a three-way merge in which two participants share state (branches of one base) and the third has an
@@ -932,6 +942,12 @@ class HistoryGen:
         hi = r.below(len(live))
         if r.chance(40) and len(live) < self.max_handles + 1:
             self.emit({"op": "branch", "h": hi})
+        if r.chance(25):
+            # the target then runs on a set that only solving can tell is unsatisfiable, and nobody has asked yet: a fault
+            # in exactly that first satisfiability pass must not make the solver forget that it still has to ask
+            lu = self.late_unsat_constraint(live[hi])
+            if lu is not None:
+                self.emit({"op": "add", "h": hi, "cs": [lu[0]]})
         kind = r.weighted([("eval", 6), ("batch_eval", 2), ("min", 3), ("max", 3), ("solution", 2), ("sat", 2), ("probe", 1)])
         op = self.query_op(kind, hi, live[hi])
         if op["op"] in ("eval", "batch_eval") and r.chance(60):
